@@ -162,7 +162,7 @@ LaneRemove(c) ==
        THEN /\ content' = [content EXCEPT ![c] = 0]
             /\ evq' = RemovedFrom(evq, c)
        ELSE UNCHANGED <<content, evq>>
-    /\ p' = IF Ghost THEN PLaneRem(p, c) ELSE p
+    /\ p' = IF Ghost /\ content[c] # 0 THEN PLaneRem(p, c) ELSE p
     /\ lastAct' = [k |-> "remove", key |-> c, empty |-> WqEmpty(evq', syncqs)]
     /\ UNCHANGED <<syncqs, nextSel, syncIdx, linked, rq>>
 
